@@ -4,8 +4,8 @@
 import json, os, re, shutil, subprocess, sys
 VERIF = os.path.dirname(os.path.dirname(os.path.abspath(__file__)))
 for prop in sys.argv[1:]:
-    for x in 'ABCD':
-        src = '/tmp/mut/%s/%s' % (prop, 'out' if x in 'AB' else 'out2')
+    for x in 'ABCDEF':
+        src = '/tmp/mut/%s/%s' % (prop, 'out' if x in 'AB' else ('out2' if x in 'CD' else 'out3'))
         if not os.path.exists('%s/patch_%s.diff' % (src, x)):
             continue
         dst = os.path.join(VERIF, 'seeded', '%s-%s' % (prop, x))
